@@ -386,6 +386,8 @@ def _op_derive(ctx, W, st):
         return
     if m["depth"] >= 5:
         ctx.probe("depth>=5")
+    ctx.sig("%s|%s|d%d|%s|%s|%s" % (W.variant, st["via"], m["depth"], "prv" if m["k"] is not None else "pub",
+                                    "".join("H" if h else "n" for _, h in path), "warm" if st.get("rederive") else "cold"))
     W.objs[st["dst"]] = node
     W.models[st["dst"]] = m
     W.abs[st["dst"]] = (seed, apath + path, m["k"] is not None)
